@@ -32,6 +32,9 @@ pub struct Setup {
     pub enc_ctl: bool,
     /// 0 = RustCrypto (default), 1 = OpenSSL, 2 = AWS-LC
     pub provider: u8,
+    /// this client publishes invalid key packages (hist offender kind 6): 0 = no, 1 = a default proposal type listed in the
+    /// capabilities, 2 = a default extension type listed, 3 = expired lifetime
+    pub bad_caps: u8,
 }
 
 impl Setup {
@@ -46,6 +49,7 @@ impl Setup {
             path_required: false,
             enc_ctl: false,
             provider: 0,
+            bad_caps: 0,
         }
     }
 }
